@@ -339,7 +339,7 @@ def run_case(ctx: Ctx, case) -> None:
 
 def check(ctx: Ctx) -> None:
     C.quiet_logs()
-    ctx.given(cases(), lambda c: run_case(ctx, c), ctx.n(60, 1600))
+    ctx.given(cases(), lambda c: run_case(ctx, c), ctx.n(160, 1600))
 
 
 def replay(ctx: Ctx, case) -> None:
